@@ -16,11 +16,13 @@ import (
 )
 
 type Case struct {
-	Window string    `json:"window"` // tumbling, counting, session, global
-	N      int       `json:"n"`      // counting / global threshold
-	Keys   []string  `json:"keys"`
-	Upper  bool      `json:"upper"` // first key column is grouped as upper(k1)
-	Rows   []gen.Row `json:"rows"`  // id + key columns
+	Window   string    `json:"window"` // tumbling, counting, session, global
+	N        int       `json:"n"`      // counting / global threshold
+	Keys     []string  `json:"keys"`
+	Upper    bool      `json:"upper"`               // first key column is grouped as upper(k1)
+	NearPair bool      `json:"near_pair,omitempty"` // two float keys differing only beyond float32 precision were planted
+	KeyFn    string    `json:"key_fn,omitempty"`    // other scalar function around the first key column: lower, length (strings), abs (ints), floor (floats); several raw values share one function value
+	Rows     []gen.Row `json:"rows"`                // id + key columns
 }
 
 func genKeyVal(t *rapid.T, kind int) gen.Val {
@@ -65,6 +67,9 @@ func genCase(t *rapid.T) Case {
 	if nk > 0 && kinds[0] == 0 && rapid.IntRange(0, 4).Draw(t, "upper") == 0 {
 		c.Upper = true
 	}
+	if nk > 0 && !c.Upper && rapid.IntRange(0, 5).Draw(t, "keyfn") == 0 {
+		c.KeyFn = [][]string{{"lower", "length"}, {"abs"}, {"floor"}}[kinds[0]][rapid.IntRange(0, 1).Draw(t, "whichfn")%len([][]string{{"lower", "length"}, {"abs"}, {"floor"}}[kinds[0]])]
+	}
 	npool := 1
 	if nk > 0 {
 		npool = rapid.IntRange(1, 6).Draw(t, "npool")
@@ -77,14 +82,40 @@ func genCase(t *rapid.T) Case {
 			if c.Upper && j == 0 && pool[i][j].IsNull() {
 				pool[i][j] = gen.Str("a") // upper(NULL) is not fixed by the property
 			}
+			if c.KeyFn != "" && j == 0 {
+				// f(NULL) is not fixed by the property; small values, so that abs/floor are exact and several raw values share one function value
+				switch kinds[0] {
+				case 0:
+					pool[i][j] = gen.Str(rapid.SampledFrom([]string{"a", "A", "b", "B", "ab", "Ab", "a|b", "A|B", "", "|", ","}).Draw(t, "fks"))
+				case 1:
+					pool[i][j] = gen.Int(int64(rapid.IntRange(-3, 3).Draw(t, "fki")))
+				default:
+					pool[i][j] = gen.Float(float64(rapid.IntRange(-6, 6).Draw(t, "fkf")) / 4)
+				}
+			}
 		}
 	}
-	if nk >= 2 && kinds[0] == 0 && kinds[1] == 0 && npool >= 2 && !c.Upper && rapid.IntRange(0, 2).Draw(t, "plant") == 0 {
+	if nk >= 2 && kinds[0] == 0 && kinds[1] == 0 && npool >= 2 && !c.Upper && c.KeyFn == "" && rapid.IntRange(0, 2).Draw(t, "plant") == 0 {
 		cp := gen.CollidingPair().Draw(t, "collide")
 		copy(pool[0], cp[0])
 		copy(pool[1], cp[1])
 		if nk == 3 {
 			pool[1][2] = pool[0][2]
+		}
+	}
+	// two float keys that differ only beyond float32 precision / in the last bits, in the same batch
+	for j := 0; j < nk; j++ {
+		if kinds[j] == 2 && npool >= 2 && !(j == 0 && c.KeyFn != "") && rapid.IntRange(0, 2).Draw(t, "nearpair") == 0 {
+			pr := rapid.SampledFrom([][2]float64{{16777216, 16777217}, {0.3, 0.30000000000000004}, {0.1234567891, 0.1234567892}, {1e15, 1e15 + 1},
+				{1700000000000, 1700000000001}, {float64(float32(0.1)), 0.1}, {1e-7, 1.0000001e-7}, {123456.789, 123456.7890001}, {4503599627370497, 4503599627370498}}).Draw(t, "near")
+			pool[0][j], pool[1][j] = gen.Float(pr[0]), gen.Float(pr[1])
+			for x := 0; x < nk; x++ {
+				if x != j {
+					pool[1][x] = pool[0][x] // the pair differs in this column only
+				}
+			}
+			c.NearPair = true
+			break
 		}
 	}
 	n := rapid.IntRange(1, 40).Draw(t, "n")
@@ -104,6 +135,8 @@ func groupExprs(c Case) []string {
 	for i, k := range c.Keys {
 		if i == 0 && c.Upper {
 			g = append(g, "upper("+k+")")
+		} else if i == 0 && c.KeyFn != "" {
+			g = append(g, c.KeyFn+"("+k+")")
 		} else {
 			g = append(g, k)
 		}
@@ -116,6 +149,8 @@ func sqlOf(c Case) string {
 	for i, k := range c.Keys {
 		if i == 0 && c.Upper {
 			sel = append(sel, "upper("+k+") AS "+k)
+		} else if i == 0 && c.KeyFn != "" {
+			sel = append(sel, c.KeyFn+"("+k+") AS "+k)
 		} else {
 			sel = append(sel, k)
 		}
@@ -146,6 +181,18 @@ func tupleOf(c Case, r gen.Row) (string, []gen.Val) {
 		v := r[k]
 		if i == 0 && c.Upper && v.K == "str" {
 			v = gen.Str(strings.ToUpper(v.S))
+		}
+		if i == 0 && c.KeyFn != "" {
+			switch c.KeyFn {
+			case "lower":
+				v = gen.Str(strings.ToLower(v.S))
+			case "length":
+				v = gen.Float(float64(len([]rune(v.S))))
+			case "abs":
+				v = gen.Float(math.Abs(float64(v.I)))
+			case "floor":
+				v = gen.Float(math.Floor(v.Float()))
+			}
 		}
 		vals[i] = v
 		if v.IsNull() {
@@ -348,19 +395,25 @@ func runCase(c Case) (res pbt.Result) {
 	if nullGroup {
 		res.Class("null-group")
 	}
-	if c.Upper {
+	if c.Upper || c.KeyFn != "" {
 		res.Class("function-key")
+	}
+	if c.KeyFn != "" {
+		res.Class("function-key:" + c.KeyFn)
+	}
+	if c.NearPair {
+		res.Class("near-float-pair")
 	}
 	res.NonTrivial = (len(c.Keys) >= 2 && sepVal) || nullGroup || colliding
 	return
 }
 
 var spec = pbt.Spec[Case]{
-	ID:   "C04",
-	Rule: "generated: 0-3 grouping columns (one scalar type each: strings from a pool built to collide under naive joins, small ints, floats; NULL and missing; optionally upper(k1) as function key), rows drawn from a pool of 1-6 key tuples and interleaved, run through an event-time tumbling window (one interval + flush), a counting window, an event-time session window (gap-free + flush) and a global window. oracle: typed reference partition (NULL != '', missing == NULL): every result row aggregates ids of one tuple only, at most one row per tuple per batch, reports the tuple under the selected names, and the union per tuple equals that tuple's rows that had to fire. non-trivial = >=2 columns with a separator-bearing value, or a NULL group, or two tuples whose '|', ',' or \\x1f joins coincide; distinct by case hash",
-	Assumptions: []string{"input never dropped (block strategy)", "one scalar type per grouping column (1 vs '1' is outside the property)", "upper(NULL) is not generated"},
-	Gen: genCase,
-	Run: runCase,
+	ID:          "C04",
+	Rule:        "generated: 0-3 grouping columns (one scalar type each: strings from a pool built to collide under naive joins, small ints, floats incl. planted pairs that differ only beyond float32 precision or in the last bits; NULL and missing; optionally upper(k1), lower(k1), length(k1), abs(k1) or floor(k1) as function key, the last three mapping several raw values to one key), rows drawn from a pool of 1-6 key tuples and interleaved, run through an event-time tumbling window (one interval + flush), a counting window, an event-time session window (gap-free + flush) and a global window. oracle: typed reference partition (NULL != '', missing == NULL): every result row aggregates ids of one tuple only, at most one row per tuple per batch, reports the tuple under the selected names, and the union per tuple equals that tuple's rows that had to fire. non-trivial = >=2 columns with a separator-bearing value, or a NULL group, or two tuples whose '|', ',' or \\x1f joins coincide; distinct by case hash",
+	Assumptions: []string{"input never dropped (block strategy)", "one scalar type per grouping column (1 vs '1' is outside the property)", "f(NULL) is not generated for function keys"},
+	Gen:         genCase,
+	Run:         runCase,
 }
 
 func TestProp(t *testing.T)    { pbt.RunProp(t, spec) }
